@@ -154,6 +154,7 @@ class CHECK(Check):
         ids = {id(e): i for i, e in enumerate(elems)}
         c = F["Data"](elems[0])
         out = []
+        seen_new = set()
         for j, op in enumerate(case["ops"]):
             # a third of the operations run while an iteration over the container is suspended (`for e in c: c.remove(e)` is
             # ordinary user code); the iterator is exhausted afterwards. Iterating is an observation: it must not change what
@@ -163,6 +164,15 @@ class CHECK(Check):
                 it = iter(c)
                 for _ in range((h >> (2 * j + 7)) % 3):
                     next(it, None)
+            newi = op[1] if op[0] <= 1 else (op[2] if op[0] <= 3 else None)     # index of the element being inserted
+            if newi is not None and newi != 0 and newi not in seen_new and (h >> (3 * j + 11)) % 3 == 0:
+                # the element about to be inserted for the first time is built with previous= / next= that name current members (a
+                # constructor only records what it is given; the container's operation decides where the element goes)
+                old = elems[newi]
+                elems[newi] = K(previous=c.last, next=c.first, data=old.data)
+                ids[id(elems[newi])] = ids.pop(id(old))
+            if newi is not None:
+                seen_new.add(newi)
             try:
                 apply_op(c, elems, op)
             except AttributeError:
